@@ -314,3 +314,56 @@ def close_once_with_raising_listener(sx, p):
                 hs.remove(h)
     sx.observe('closes', len(closes))
     return len(closes) == 1
+
+
+# ---------------------------------------------------------------- generator methods that fail
+@harness('C13', params=[(pr, t) for pr in ('json', 'xml', 'soap11') for t in ('wsgi-chunked', 'wsgi-unchunked')], label=lambda p: '%s %s' % p,
+         functions=['spyne.server.wsgi.WsgiApplication.handle_rpc', 'spyne.server.wsgi.WsgiApplication.handle_error'],
+         bounds={'schedule': 'a generator method that yields 0, 1 or 2 items and then raises a non-Fault exception, raises a Fault, or '
+                             'finishes normally'})
+def generator_failures(sx, p):
+    """whenever a generator method fails - before its first item or later - the response still obeys the protocol: nothing
+    escapes the WSGI callable, start_response is called once before the body with a non-2xx status, bytes chunks only, the
+    context is closed once"""
+    import io
+    from spyne.server.wsgi import WsgiApplication
+    from harness import C09_wire as W
+    proto, transport = p
+    kind = sx.choose('kind', ['exception', 'fault', 'none'])
+    n = sx.choose('items_before', [0, 1, 2])
+    if proto not in W.LAZY_APPS:
+        Pc = {'json': W.JsonDocument, 'xml': W.XmlDocument, 'soap11': W.Soap11}[proto]
+        W.LAZY_APPS[proto] = W.Application([W.LazySvc], 'tns', in_protocol=Pc(), out_protocol=Pc())
+    app = W.LAZY_APPS[proto]
+    W.LAZY['kind'] = kind
+    body, ctype = W.LAZY_REQ[proto](n)
+    environ = {'REQUEST_METHOD': 'POST', 'PATH_INFO': '/', 'QUERY_STRING': '', 'SERVER_NAME': 'localhost', 'SERVER_PORT': '80',
+               'wsgi.url_scheme': 'http', 'wsgi.input': io.BytesIO(body), 'CONTENT_LENGTH': str(len(body)), 'CONTENT_TYPE': ctype}
+    rec = P.Record()
+    closed = []
+    counting = lambda ctx: closed.append(len(rec.chunks))
+    app.event_manager.add_listener('method_context_closed', counting)
+
+    def start_response(status, headers, exc_info=None):
+        rec.start_response.append((status, headers, len(rec.chunks)))
+    try:
+        it = WsgiApplication(app, chunked=(transport == 'wsgi-chunked'))(environ, start_response)
+        rec.extra['iter_started_with_start_response'] = len(rec.start_response)
+        for c in it:
+            rec.chunks.append(c)
+        if hasattr(it, 'close'):
+            it.close()
+    except Exception as e:
+        rec.escaped = e
+    finally:
+        app.event_manager.handlers['method_context_closed'].remove(counting)
+    rec.extra['closed'] = closed
+    problems = O.check_wsgi({'proto': proto}, rec)
+    if not problems:
+        st = rec.start_response[0][0]
+        if kind == 'none' and not st.startswith('200'):
+            problems.append('status %s for a successful call' % st)
+        if kind != 'none' and st.startswith('2'):
+            problems.append('status %s for a failed call' % st)
+    sx.observe('problems', problems)
+    return not problems
